@@ -1,3 +1,4 @@
 import Model.Scalar
 import Model.Domain
 import Model.Density
+import Model.Tables
